@@ -216,6 +216,7 @@ pub fn parse_history(text: &str) -> Vec<sim::system::Ev> {
             "Client" => Ev::Client(nums[0] as u8),
             "FlushDone" => Ev::FlushDone,
             "Disconnect" => Ev::Disconnect(nums[0] as u8),
+            "ClientClose" => Ev::ClientClose(nums[0] as u8),
             other => panic!("unknown event {other}"),
         });
     }
